@@ -272,6 +272,24 @@ def mono_seq(rng, tier, ci):
     cap = n + rng.choice([0, 0, 0, 1, 5])
     return u, cap, xs
 
+def big_ef_shapes(rng, tier):
+    """Elias-Fano inputs large enough (high-bit vector > 65536 bits) for the DArray indexes over the high bits to
+    contain a *sparse* block of 1024 positions followed by dense blocks — for the ones (select) and for the zeros (rank)"""
+    out = []
+    # ones: 300 tiny values, then everything clustered near the top of the universe
+    n = 50000 + rng.randrange(0, 2000); u = 60 * n
+    xs = sorted([rng.randrange(0, 300) for _ in range(300)] + [u - 1 - rng.randrange(0, 40 * (n - 300)) for _ in range(n - 300)])
+    out.append((u, xs))
+    # zeros: a long run of values with (nearly) the same high part in the middle of the universe
+    n = 70000 + rng.randrange(0, 2000); u = 60 * n; mid = u // 3
+    xs = sorted([mid + rng.randrange(0, 32) for _ in range(n - 2000)] + [rng.randrange(0, u) for _ in range(2000)])
+    out.append((u, xs))
+    if tier != 'quick':
+        n = 150000; u = 200 * n
+        xs = sorted([rng.randrange(0, 500) for _ in range(700)] + [u // 2 + rng.randrange(0, 64) for _ in range(n - 1400)] + [u - 1 - rng.randrange(0, 1000) for _ in range(700)])
+        out.append((u, xs))
+    return out
+
 def lst(xs): return ','.join(map(str, xs)) if xs else '-'
 
 def ef_queries(rng, oid, u, xs, nq, rank=True):
@@ -308,6 +326,19 @@ def gen_C04(rng, tier):
         for k in set([0, 1, n // 2, max(0, n - 1), n, n + 1]):
             L.append('it 1 iter %d %s' % (k, ','.join(['n'] * min(n - min(k, n) + 2, 70))))
         L.append('q 1 ser'); L.append('q 1 size_in_bytes')
+        cases.append(L)
+    # large sequences whose high-bit vector has a sparse 1024-block followed by dense ones (ones: select; zeros: rank)
+    for bi, (u, xs) in enumerate(big_ef_shapes(rng, tier)):
+        n = len(xs)
+        L = ['case C04-big-%d u=%d n=%d' % (bi, u, n), 'new 0 efb new %d %d' % (u, n), 'm 0 extend %s' % lst(xs), 'new 1 ef build 0 1']
+        ks = set([0, 299, 300, 1023, 1024, 1055, 1056, 2047, 2048, 3000, n - 1, n] + [rng.randrange(0, n) for _ in range(12)])
+        for k in sorted(ks):
+            L.append('q 1 select %d' % k); L.append('q 1 delta %d' % k)
+        ps = set([0, u, u - 1] + [xs[k] + d for k in (0, 299, 300, 1024, 1056, 2048, n // 2, n - 1) for d in (-1, 0, 1) if 0 <= xs[k] + d] + [rng.randrange(0, u) for _ in range(12)])
+        for p_ in sorted(ps):
+            for m in ('rank', 'predecessor', 'successor'): L.append('q 1 %s %d' % (m, p_))
+        for k in (0, 1000, 1056, n - 3): L.append('it 1 iter %d %s' % (k, ','.join(['n'] * 40)))
+        for v in [xs[0], xs[300], xs[1056], xs[n - 1], xs[n // 2] + 1]: L.append('q 1 binsearch %d' % v)
         cases.append(L)
     # from_bits entry point
     for ci in range(6 if tier == 'quick' else 30):
@@ -550,6 +581,8 @@ def gen_C08(rng, tier):
         for oid, k in kinds.items():
             L.append('q %d ser' % oid)
             L.append('q %d rt %d' % (oid, rng.choice([0, 1, 9])))
+            # the same bytes through a reader that hands them out in pieces (BufReader / chained readers do this)
+            L.append('q %d sched %s' % (oid, rng.choice(['c1', 'c3', 'c5,c2', 'c7,c1', 'c%d' % rng.randrange(1, 17)])))
             L.append('new %d %s deser %d' % (100 + oid, k, oid))
             L.append('eq %d %d' % (oid, 100 + oid))
             for p in PROBES[k]:
@@ -844,11 +877,19 @@ def gen_C19(rng, tier):
     cases = []
     big = 300_000 if tier == 'quick' else 2_000_000
     def sz(L, oid): L.append('q %d size_in_bytes' % oid)
-    for ci in range(14 if tier == 'quick' else 60):
+    nfam = 18 if tier == 'quick' else 80
+    for ci in range(nfam):
         L = ['case C19-bits-%d' % ci]
         n = rng.choice([0, 1, 64, 1000, 8192, 100_000, big])
         fam = ci % 5
-        if fam == 0: v = (1 << n) - 1                       # all ones: most select1 hints
+        gaps = [(33, 0), (50, 0), (63, 0), (40, 1)] if tier == 'quick' else [(g_, z_) for g_ in (20, 31, 32, 33, 40, 50, 63, 64, 65, 90) for z_ in (0, 1)]
+        if ci >= nfam - len(gaps):
+            # regular gaps g: every 1024-block spans 1024*g bits — the whole range of local densities between
+            # "dense" and "stored verbatim" (and its complement, for the index over the zeros)
+            g, compl = gaps[ci - (nfam - len(gaps))]; n = g * rng.choice([2100, 4200, 8000])
+            v = sum(1 << i for i in range(0, n, g))
+            if compl: v = ((1 << n) - 1) ^ v
+        elif fam == 0: v = (1 << n) - 1                       # all ones: most select1 hints
         elif fam == 1: v = 0                                 # all zeros: most select0 hints
         elif fam == 2: n, v = darray_bits(rng, tier)         # alternating dense/sparse blocks
         elif fam == 3: v = rand_bits(rng, n, 0.5)
